@@ -3,7 +3,7 @@ CANON = True
 
 import ast
 
-from .. import compq, pyq
+from .. import pm, compq, pyq
 from ..pysrc import dotted, norm, flat
 
 R = compq.RM
@@ -91,7 +91,7 @@ def check(ctx, src):
     fr = mo.func("FComponent.replace")
     ctx.require(fr is not None, "FComponent.replace not found")
     t = flat(fr)
-    ctx.check("for attr in self._extra_kwargs: if hasattr(other, attr): setattr(self, attr, getattr(other, attr))" in t, "Q-PROMOTE", f"{MO}|FComponent.replace|attrs", "FComponent.replace must copy the extra attributes", MO, fr.lineno, detail="copies _extra_kwargs")
+    ctx.check(pm.find(fr, "for attr in self._extra_kwargs:\n    if hasattr(other, attr):\n        setattr(self, attr, getattr(other, attr))") is not None, "Q-PROMOTE", f"{MO}|FComponent.replace|attrs", "FComponent.replace must copy the extra attributes", MO, fr.lineno, detail="copies _extra_kwargs")
     ek = {}
     for cn in ("FComponent", "FString"):
         for st in mo.classes[cn].body:
